@@ -50,3 +50,8 @@ func H_ClosePositions_TwoOfOnePool() { h_c10.H_Perp_ClosePositions_TwoOfOnePool_
 //vrf:cover join-ok
 //vrf:bound see h_c09.H_AmmJoin_KeepsAccountedPool
 func H_AmmJoin_WithPerpetualPositions() { h_c09.H_AmmJoin_KeepsAccountedPool() }
+
+//vrf:cover done
+//vrf:bound see h_c10.H_Perp_ClosePositions_SamePositionThrice_Ledger
+//vrf:max-paths 6000
+func H_ClosePositions_SamePositionRepeated() { h_c10.H_Perp_ClosePositions_SamePositionThrice_Ledger() }
